@@ -79,6 +79,11 @@ func C10Base(t *rapid.T) *world.Scenario {
 			}
 			continue
 		}
+		if Pct(t, lbl+"-nilhdr", 3) {
+			// an upstream RoundTripper that leaves Response.Header nil
+			st.Req.Uncond.NilHeader = true
+			continue
+		}
 		switch Weighted(t, lbl, 60, 10, 10, 10, 10) {
 		case 1:
 			st.Req.Cond = &world.Reply{Kind: "err"}
